@@ -86,6 +86,16 @@ def r_around2(y):
     return round(y, 2)
 
 
+def r_around(digits):
+    def f(y):
+        if y is None:
+            return None
+        if tie(y, digits) or abs(y) > 1e7:
+            return UNSPEC
+        return float(round(y, digits))
+    return f
+
+
 def sign(v):
     return (v > 0) - (v < 0)
 
@@ -262,6 +272,15 @@ EXTRA = [
      lambda x, y: (None if y is None else y - 1) if x is None else ((x + 1) if y is None else min(x + 1, y - 1))),
     ("-", "-(x - y)", ("x", "y"), nprop(lambda x, y: -(x - y))),
     ("/", "(x - y) / (z.abs() + 1)", ("x", "y", "z"), nprop(lambda x, y, z: (x - y) / (abs(z) + 1))),
+    # around with other digit counts than the catalog's example, negative ones included (round to tens / hundreds)
+    ("around", "y.around(-1)", ("y",), r_around(-1)),
+    ("around", "(y * 100).around(-2)", ("y",), lambda y: None if y is None else r_around(-2)(y * 100)),
+    ("around", "y.around(0)", ("y",), r_around(0)),
+    ("around", "y.around(1)", ("y",), r_around(1)),
+    # addition chains of three and four terms (one n-ary node after parsing) with missing operands
+    ("+", "x + y + z", ("x", "y", "z"), nprop(lambda x, y, z: x + y + z)),
+    ("+", "x + y + z + x", ("x", "y", "z"), nprop(lambda x, y, z: x + y + z + x)),
+    ("*", "x * y * z", ("x", "y", "z"), nprop(lambda x, y, z: x * y * z)),
     # two-argument extrema over two columns that are equal in ~15% of the rows (ties between the arguments)
     ("fmax", "x.fmax(y)", ("x", "y"), lambda x, y: (y if x is None else (x if y is None else max(x, y)))),
     ("fmin", "x.fmin(y)", ("x", "y"), lambda x, y: (y if x is None else (x if y is None else min(x, y)))),
